@@ -346,3 +346,27 @@ add('C13', 'parse-trains-detector', SPS, "        omen_score = self.omen.parse(p
 add('C13', 'parse-remembers-last', SPS, "        omen_score = self.omen.parse(password)\n", "        omen_score = self.omen.parse(password)\n        self.last_password = password\n", 'fire', 'C13.R4')
 add('C13', 'tables-swapped-at-load', SGIOF, [("_load_from_multiple_files(grammar.count_digits, config['BASE_D']", "_load_from_multiple_files(grammar.count_other, config['BASE_D']"), ("_load_from_multiple_files(grammar.count_other, config['BASE_O']", "_load_from_multiple_files(grammar.count_digits, config['BASE_O']")], None, 'fire', 'C13.R5')
 add('C08', 'no-save-on-exhaustion (pinned defect)', CSF, "                self._save_session()\n                return\n", "                return\n", 'fire', 'C08.R4')
+
+# ---- rules added after round 2 ---------------------------------------------------------------------------------
+add('C01', 'omen-levels-resorted-after-load', GIO, "    grammar['M'] = []\n    if not _load_from_file(grammar['M'], full_path, encoding):\n        return False\n", "    grammar['M'] = []\n    if not _load_from_file(grammar['M'], full_path, encoding):\n        return False\n    grammar['M'].sort(key=lambda g: int(g['values'][0]))\n", 'fire', 'C01.R6')
+add('C02', 'insert-queue-probability-floor', PQF, "        heapq.heappush(self.p_queue, QueueItem(queue_item))\n\n    def restore_base_item", "        if queue_item['prob'] <= self.min_probability:\n            return\n        heapq.heappush(self.p_queue, QueueItem(queue_item))\n\n    def restore_base_item", 'fire', 'C02.R5')
+add('C08', 'insert-queue-probability-floor', PQF, "        heapq.heappush(self.p_queue, QueueItem(queue_item))\n\n    def restore_base_item", "        if queue_item['prob'] <= self.min_probability:\n            return\n        heapq.heappush(self.p_queue, QueueItem(queue_item))\n\n    def restore_base_item", 'fire', 'C08.R9')
+add('C08', 'restore-recursion-limit-lowered', PGF, "        recursion_depth = 10**6", "        recursion_depth = 10**4", 'fire', 'C08.R9')
+add('C03', 'context-match-case-insensitive', CTX_, "        start_index = working_string.find(replacement)", "        start_index = working_string.lower().find(replacement.lower())", 'fire', 'C03.R9')
+add('C06', 'tld-table-as-set', 'lib_trainer/detection_rules/tld_list.py', [("    tld_list = [", "    tld_list = {"), ("    ]\n", "    }\n")], None, 'fire', 'C06.R6')
+add('C06', 'tld-table-sorted-set (deterministic)', 'lib_trainer/detection_rules/tld_list.py', [("    return tld_list", "    return sorted(set(tld_list), key=tld_list.index)")], None, 'silent')
+add('C10', 'find-cp-lower-bound-clamped', GSF, "        if self.max_level < top_level:\n            top_level = self.max_level", "        if self.max_level < top_level:\n            top_level = self.max_level\n        if self.max_level < bottom_level:\n            bottom_level = self.max_level", 'fire', 'C10.R4')
+add('C10', 'length-cursor-extra-pruning', MCF_, "            size = len(ln[level])\n            if size > index:\n", "            size = len(ln[level])\n            if size > index and self.target_level - level <= ln[level][index] * self.max_level:\n", 'fire', 'C10.R5')
+add('C12', 'catch-all-sets-quit', CSF, "        # If we can't print to stderr, that implies something weird is happening\n        # so exit the user input thread.\n        except:\n            return", "        # If we can't print to stderr, that implies something weird is happening\n        # so exit the user input thread.\n        except:\n            pcfg.should_exit = True\n            return", 'fire', 'C12.R2')
+add('C13', 'digit-list-deduplicated', DIG, "            if digit_string is not None:\n                digit_list.append(digit_string)", "            if digit_string is not None:\n                if digit_string not in digit_list:\n                    digit_list.append(digit_string)", 'fire', 'C13.R8')
+add('C13', 'alpha-casefold', ALPHA, "    working_string = section[0].lower()", "    working_string = section[0].casefold()", 'fire', 'C13.R9')
+add('C03', 'alpha-casefold (outside the one-to-one domain)', ALPHA, "    working_string = section[0].lower()", "    working_string = section[0].casefold()", 'silent')
+add('C14', 'loader-cache-by-directory', GIO, [("def load_grammar(rule_name,", "_CACHE = {}\n\n\ndef load_grammar(rule_name,"), ("    grammar = {}\n\n    if not _load_terminals(ruleset_info, grammar, base_directory, config, skip_case):\n        raise Exception", "    grammar = _CACHE.setdefault(base_directory, {})\n\n    if not grammar and not _load_terminals(ruleset_info, grammar, base_directory, config, skip_case):\n        raise Exception")], None, 'fire', 'C14.R8')
+add('C14', 'base-probs-renormalised-after-load', PGF, "        self.encoding = self.ruleset_info['encoding']\n", "        self.encoding = self.ruleset_info['encoding']\n        total = sum(b['prob'] for b in self.base)\n        for b in self.base:\n            b['prob'] = b['prob'] / total\n", 'fire', 'C14.R7')
+add('C15', 'omen-levels-loop-without-quit-test', PGF, "            return self.omen_generate_guesses(markov_cracker, limit)\n\n        # If it is a capitalization mask", "            for _ in range(1):\n                num_guesses += self.omen_generate_guesses(markov_cracker, limit)\n            return num_guesses\n\n        # If it is a capitalization mask", 'fire', 'C15.R6')
+add('C15', 'guess-structure-extra-state', GSF, "    def _format_guess(self):", "    def _touch(self):\n        self.last_len = len(self.parse_tree)\n\n    def _format_guess(self):", 'fire', 'C15.R3')
+add('C17', 'create-guesses-fast-path', PGF, "        if not is_honeyword:\n            return self._recursive_guesses('', pt, limit)", "        if not is_honeyword:\n            if len(pt) == 1 and pt[0][0][0] not in ('M', 'C'):\n                for g in self.grammar[pt[0][0]][pt[0][1]]['values']:\n                    self.print_guess(g)\n                return len(self.grammar[pt[0][0]][pt[0][1]]['values'])\n            return self._recursive_guesses('', pt, limit)", 'fire', 'C17.R6')
+add('C18', 'third-pass-without-prefixcount', RTF, "    # Perform third loop through training data\n    # Re-Initialize the file input to read passwords from\n    file_input = TrainerFileInput(\n                    program_info['training_file'], \n                    program_info['encoding'],\n                    program_info['prefixcount'])",
+    "    # Perform third loop through training data\n    # Re-Initialize the file input to read passwords from\n    file_input = TrainerFileInput(\n                    program_info['training_file'], \n                    program_info['encoding'])", 'fire', 'C18.R6')
+add('C19', 'reader-encoding-remapped', TFI, "        self.encoding = encoding\n        self.filename = filename", "        if encoding.lower() == 'utf-8':\n            encoding = 'utf-8-sig'\n        self.encoding = encoding\n        self.filename = filename", 'fire', 'C19.R5')
+add('C20', 'terminal-set-validated', ERF, "        program_info['terminal_set'] = [x.upper() for x in args.terminal_set.split(',')]", "        program_info['terminal_set'] = [x.upper() for x in args.terminal_set.split(',') if x.upper() in 'ADOKXY']", 'fire', 'C20.R6')
